@@ -357,12 +357,20 @@ def IntKind.little : IntKind → Bool
   | .uintle | .intle => true
   | _ => false
 
-/-- `_setuint`, `_setint`, `_setuintbe`, `_setintbe`, `_setuintle`, `_setintle` (bits.py:647-733). -/
+/-- The endian-specific integer dtypes (be / le, hence also ne). -/
+def IntKind.wholeByte : IntKind → Bool
+  | .uint | .int => false
+  | _ => true
+
+/-- `_setuint`, `_setint`, `_setuintbe`, `_setintbe`, `_setuintle`, `_setintle` (bits.py:671-765): length defaulting,
+    zero length rejected, and (be / le, since bf99409) `if length % 8: raise CreationError`. -/
 def setInt (k : IntKind) (v : Int) (length cur : Option Nat) : Except Err Bits :=
   match lengthOrCur length cur with
   | none => .error .value
   | some 0 => .error .value
-  | some l => if k.little then intle2bitstore v l k.signed else int2bitstore v l k.signed
+  | some l =>
+    if k.wholeByte ∧ l % 8 ≠ 0 then .error .value
+    else if k.little then intle2bitstore v l k.signed else int2bitstore v l k.signed
 
 /-- `float2bitstore` (bitstore_helpers.py:238). -/
 def float2bitstore (p64 : Nat) (len : Nat) (big : Bool) : Bits :=
